@@ -46,6 +46,7 @@ class ItemSpec:
         self.before = []
         self.after = []
         self.order = []
+        self.region = None
 
 
 class FnSpec:
@@ -65,7 +66,7 @@ def parse_sidecar(path):
     for ln, raw in enumerate(open(path).read().split("\n"), 1):
         line = raw.rstrip()
         s = line.strip()
-        is_directive = (s.startswith("@") or s.startswith("item ") or s.startswith("use_item ")
+        is_directive = (s.startswith("@") or s.startswith("item ") or s.startswith("use_item ") or s.startswith("region ")
                         or s in ("keep_attrs", "selfmut", "literals")
                         or re.match(r"(fn|result|refpat) \w+$", s) is not None)
         if cur_site is not None and not is_directive:
@@ -103,6 +104,15 @@ def parse_sidecar(path):
                 raise Undecided("%s:%d: use_item: %d matches" % (path, ln, len(hits)))
             spec["items"].append(hits[0])
             cur_item = cur_fn = cur_site = None
+        elif s.startswith("region "):
+            # region SRC :: ITEM :: first_with "LIT" :: N  -- N consecutive top-level statements of the fn,
+            # starting at the first one that contains the literal token; wrapped in the @open / @close text
+            f = [x.strip() for x in s[7:].split(" :: ")]
+            cur_item = ItemSpec(f[0], f[1])
+            cur_item.region = (f[2].split(None, 1)[1].strip(), int(f[3]))
+            spec["items"].append(cur_item)
+            cur_fn = cur_item.fns.setdefault("", FnSpec())
+            cur_site = None
         elif s.startswith("item "):
             src, _, p = s[5:].partition("::")
             cur_item = ItemSpec(src.strip(), p.strip())
@@ -405,6 +415,61 @@ def build_unit(spec, repo=REPO):
             item = rsx.find_item(items, it.path)
         except KeyError as e:
             raise Undecided("lost anchor: %s" % e)
+        if it.region:
+            # a let-region: consecutive statements of a fn copied verbatim into a wrapper fn whose
+            # signature, contract and tail are the only added text
+            lit, nst = it.region
+            ftext = text[item.start:item.end]
+            try:
+                an = rsx.FnAnatomy(ftext)
+                stmts = an.statements(an.body_open, an.body_close)
+            except (rsx.LexError, AssertionError, IndexError) as e:
+                raise Undecided("%s :: %s: cannot analyse: %s" % (it.src, it.path, e))
+            # the innermost block that has a statement containing the literal
+            first = None
+            best = None
+            for q0 in range(an.body_open, an.body_close):
+                if not rsx.is_p(an.st[q0], "{"):
+                    continue
+                try:
+                    blk = an.statements(q0, rsx.match_close(an.st, q0))
+                except (rsx.LexError, IndexError):
+                    continue
+                for si, (a, b, _t) in enumerate(blk):
+                    if any(an.st[q].kind == "str" and an.st[q].text == lit for q in range(a, b + 1)):
+                        if best is None or (b - a) < best:
+                            best, first, stmts = (b - a), si, blk
+                        break
+            if first is None or first + nst > len(stmts):
+                raise Undecided("lost anchor: %s :: %s: no statement with %s (+%d)" % (it.src, it.path, lit, nst))
+            r0 = an.st[stmts[first][0]].start
+            r1 = an.st[stmts[first + nst - 1][1]].end
+            rtext = ftext[r0:r1]
+            ed = rsx.Edits(rtext)
+            label = "%s :: %s :: region %s+%d" % (it.src, it.path, lit, nst)
+            try:
+                rsx.apply_rules(rtext, spec["rules"], ed, regex_map=spec.get("regex_map"))
+            except rsx.LexError as e:
+                raise Undecided("%s: %s" % (label, e))
+            gen = ed.apply()
+            fs = it.fns.get("")
+            open_t = _strip_blank(fs.sites.get("open", []))
+            close_t = _strip_blank(fs.sites.get("close", []))
+            l0 = text.count("\n", 0, item.start + r0) + 1
+            l1 = text.count("\n", 0, item.start + r1) + 1
+            pre = "// ---- %s (lines %d-%d)\n" % (label, l0, l1) + rsx.INJ(open_t + "\n")
+            post = "\n" + rsx.INJ(close_t) + "\n\n"
+            gstart = off + len(pre)
+            parts.append(pre + gen + post)
+            off += len(pre) + len(gen) + len(post)
+            for r, c in ed.rule_counts.items():
+                g.rule_counts[r] = g.rule_counts.get(r, 0) + c
+            g.items.append({"path": it.path + " :: region " + lit, "src": it.src, "src_lines": [l0, l1], "src_start_off": item.start + r0,
+                            "sha256": hashlib.sha256(rtext.encode()).hexdigest(), "gen_start": gstart, "gen_end": gstart + len(gen),
+                            "gen_text": gen, "src_text": rtext, "kind": "region", "name": lit,
+                            "outer_start": gstart - len(pre), "outer_end": gstart + len(gen) + len(post)})
+            g.dropped.append("%s: only statements %d..%d of the fn body are copied (a let-region)" % (label, first, first + nst - 1))
+            continue
         start = item.attr_start if it.keep_attrs else item.start
         itext = text[start:item.end]
         if item.attr_start != item.start and not it.keep_attrs:
@@ -550,6 +615,9 @@ def locate(g, byte_off):
             src_off += rel - pos
             return {"item": rec["path"], "src": rec["src"], "where": "source",
                     "line": rec["src_lines"][0] + rec["src_text"].count("\n", 0, src_off)}
+    for rec in g.items:
+        if rec.get("outer_start") is not None and rec["outer_start"] <= byte_off < rec["outer_end"]:
+            return {"item": rec["path"], "src": rec["src"], "where": "contract", "line": rec["src_lines"][0]}
     return {"item": None, "src": None, "where": "preamble/postamble", "line": None}
 
 
